@@ -392,18 +392,18 @@ func (e *Engine) evidence(prop, tier string, seed int, rr *runResult, extra *ext
 		}
 	}
 	cov := map[string]interface{}{
-		"obligations":              nObl,
-		"discharged":               nDis,
-		"checker_cmd":              fmt.Sprintf("/verif/bin/govc -check -prop %s -tier %s  (solvers raced per obligation: z3-new 5.1.0, z3 4.8.12, cvc5 1.0.x; timeout %ds)", prop, tier, e.timeout),
-		"trusted_base":             []string{"go/types + go/ssa (x/tools v0.29.0)", "govc VC generator", "z3 5.1.0 / z3 4.8.12 / cvc5", "/verif/contracts/*.spec (spec functions transcribed from RFC 6733; trusted contracts of stdlib functions)", "built-in exact models of encoding/binary.BigEndian, net.IP.To4/To16, time.Unix, math.Float*bits"},
-		"functions_under_contract": rr.funcs,
-		"vacuity_guards":           map[string]int{"checked": nVac, "ok": nVacOK},
+		"obligations":               nObl,
+		"discharged":                nDis,
+		"checker_cmd":               fmt.Sprintf("/verif/bin/govc -check -prop %s -tier %s  (solvers raced per obligation: z3-new 5.1.0, z3 4.8.12, cvc5 1.0.x; timeout %ds)", prop, tier, e.timeout),
+		"trusted_base":              []string{"go/types + go/ssa (x/tools v0.29.0)", "govc VC generator", "z3 5.1.0 / z3 4.8.12 / cvc5", "/verif/contracts/*.spec (spec functions transcribed from RFC 6733; trusted contracts of stdlib functions)", "built-in exact models of encoding/binary.BigEndian, net.IP.To4/To16, time.Unix, math.Float*bits"},
+		"functions_under_contract":  rr.funcs,
+		"vacuity_guards":            map[string]int{"checked": nVac, "ok": nVacOK},
 		"known_finding_obligations": knownCount,
-		"known_findings":           knownLines,
-		"discharged_by_backend":    backends,
-		"solver_time_s":            round2(solverSecs),
-		"samples":                  samples,
-		"integers":                 "machine integers at exact width (bit-vectors); nothing is treated as mathematical",
+		"known_findings":            knownLines,
+		"discharged_by_backend":     backends,
+		"solver_time_s":             round2(solverSecs),
+		"samples":                   samples,
+		"integers":                  "machine integers at exact width (bit-vectors); nothing is treated as mathematical",
 	}
 	for k, v := range extra.coverage {
 		cov[k] = v
